@@ -38,6 +38,8 @@ A sample budget that runs out without quiescence is INCONCLUSIVE.
     old            registered with the LLC (bound) before terminate() began; the thread was already waiting then
     old-latewait   same socket class, but the thread entered the wait after terminate() had begun (it had passed the
                    entry checks before): lost wake-up
+    entering       entering cases: the call was parked at one of its lock acquisitions before terminate() began and
+                   resumed after the link loop had come back
     racing         created before the link loop came back, bound while/after terminate() ran
     new            created after run() came back
 Frame-reject cases ("fr" in the descriptor): the same pair, causes and MAC modes, but the link is ended only after
@@ -57,6 +59,26 @@ connection, in accept() on a listening socket and in connect() in progress (ther
 victim may return at the reject (what nfcpy does) or when the link ends, it must not stay blocked; the cause in
 the signature becomes <event>+<cause>.  After its first call returned a victim issues the same call once more on
 the (now shut down) socket, which has to come back too.
+
+Entering cases ("ent" in the descriptor): calls that are ENTERING - between their first test of the socket / link
+state and their wait - at the moment the link terminates.  Every blocking call kind (recv, send on a closed window,
+poll recv/send/acks on a connection, accept with and without a queued CONNECT, connect by SAP and by name, recvfrom,
+blocking sendto, poll on a logical data link, resolve, raw recv, close with its DISC handshake) is issued by an
+"entrant" thread whose socket's lock and condition objects (and the link controller's lock / the service discovery
+condition) are replaced, per instance and on the harness side, by delegating stand-ins (EntGate): everything goes to
+the real object, but the p-th outermost acquisition the entrant thread makes inside its call (p enumerated over the
+acquisition points the call has, plus one beyond) is held back until the link loop of that end has come back from
+terminate(); then the thread goes on.  The thread holds no nfcpy lock while it is parked, so this is the schedule
+"preempted right before the lock acquisition, link loop runs the complete termination, thread resumes".  A second
+kind of entrant (mode "stmt") is held the same way at the n-th statement of nfc/llcp that its call executes while it
+holds none of these locks (sys.monitoring LINE hook; n enumerated over the statements the call path has outside its
+critical sections, plus two): preemption at any statement between two critical sections or in front of the first.
+Racers (statistical part): further threads issue the same calls when terminate() reaches the MAC / when the link
+loop begins to shut the service access points down (plus 0..15 ms), with yield injection at statement starts of
+nfc/llcp/tco.py and llc.py in these threads (sleeps of 0.5..20 ms) and in the link loops (sleep(0)) only.  The
+oracle is unchanged (clauses 1 and 2); <age> is "entering" for a call that was parked before terminate() began.
+The link ends k in (0,1,3,8) exchanges after all entrants are parked (or have passed their last acquisition point
+and wait inside the call).
 
 MAC modes: "fake" (PDU level pipe, exchange/activate/deactivate of the real nfc.dep instances replaced), "dep"
 (only activate replaced: the real nfc.dep exchange()/deactivate() run over a frame level air) and "udp" (complete
@@ -103,7 +125,17 @@ RULE = ("case = (cause of termination x end that experiences it x deactivate var
         "(blocked call x frame-reject event) combinations - recv / poll recv / poll acks / send on a closed window / "
         "poll send on an established connection, accept, connect in progress x FRMR received, I PDU with wrong N(S), "
         "oversized I PDU, UI, PDU of reserved type 1011, DM, CC sent by a raw access point of the peer when the victim is seen waiting - "
-        "and end the link k exchanges after the events took effect. A case is distinct by "
+        "and end the link k exchanges after the events took effect. Entering cases (2 per shard quick, 10 thorough) "
+        "add: 13 causes x delay k in (0,1,3,8), enumerated, x on EACH end one entrant thread per (blocking call kind x "
+        "outermost lock acquisition point p of that call: 20 points on the unchanged code - recv, send on a closed "
+        "window, poll recv/send/acks, accept, accept with a queued CONNECT p=1,2, connect p=1,2, connect by name, "
+        "recvfrom, sendto p=1,2, poll on a logical data link, resolve, raw recv, close p=1,2,3) that is held at that "
+        "acquisition by a delegating stand-in for the lock/condition until the link loop has come back from "
+        "terminate(), 2 probes at p+1 (rotating), 4 entrants held instead at the n-th statement executed outside "
+        "every critical section (call kind x n enumerated, 184 points, 8 consecutive ones per case) and 2 racers "
+        "(rotating) that start their call when terminate() reaches the MAC / begins to shut the service access "
+        "points down, with yield injection in nfc/llcp/tco.py and llc.py. "
+        "A case is distinct by "
         "(descriptor, observed schedule signature) and non-trivial if both link loops ended, every thread was "
         "classified and the post-termination calls (every kind, old sockets and new sockets) were issued")
 ASSUMPTIONS = [
@@ -131,6 +163,15 @@ ASSUMPTIONS = [
     "victim socket's transmission control object only to time the injection and the link end and for the coverage "
     "counters fr_*; bounded waits there (4 s for the victims to block, 3 s for the effect) select what is "
     "exercised and decide no verdict",
+    "entering cases: the lock / condition attributes of the entrant's socket, the link controller's lock and the "
+    "service discovery condition are replaced per instance by stand-ins that delegate every operation to the real "
+    "object; a stand-in only delays the registered entrant thread, at an acquisition it makes while holding none "
+    "of these locks (mode stmt: the LINE hook delays it at a statement it executes while holding none of them), "
+    "until the link loop of its end has ended (a schedule the interpreter may produce by itself); "
+    "the harness reads the socket's receive queue length (accept with a queued CONNECT) and thread stacks only to "
+    "time the end of the link; bounded waits there (8 s for the entrants to arrive, 60 s guard on a parked thread) "
+    "select what is exercised and decide no verdict; a call that was not parked before terminate() began is not "
+    "counted as an entering call",
     "a thread is 'blocked forever' when, after both link loops have ended and all watched threads are quiescent, it "
     "sits in an untimed Condition.wait called from nfc code whose waiter lock nobody has released; no other "
     "workload thread shares its socket (except the thread that later issues close(), after the verdict)",
@@ -228,12 +269,12 @@ K_MIN, K_MAX = 2, 40
 
 def plan(tier, seed):
     if tier == "quick":
-        shards, per, nfr = 16, 20, 2
+        shards, per, nfr, nent = 16, 20, 2, 2
     else:
-        shards, per, nfr = 48, 120, 12
+        shards, per, nfr, nent = 48, 120, 12, 10
     out = []
     for s in range(shards):
-        d = {"n": per, "stride": shards, "first": s, "nfr": nfr}
+        d = {"n": per, "stride": shards, "first": s, "nfr": nfr, "nent": nent}
         if tier != "quick":
             d["timeout"] = 1500
         out.append(d)
@@ -333,6 +374,69 @@ def make_fr_desc(f, seed, rng):
     return d
 
 
+# entering cases ---------------------------------------------------------------------------------------------
+# (variant, p): the call of that variant is held at the p-th outermost acquisition of a socket / link controller
+# lock or condition it makes; the list is what the unchanged code reaches (each is a REQUIRED counter)
+ENT_POINTS = [("recv", 1), ("send", 1), ("poll-recv", 1), ("poll-send", 1), ("poll-acks", 1), ("accept", 1),
+              ("accept-pending", 1), ("accept-pending", 2), ("connect", 1), ("connect", 2), ("connect-name", 2),
+              ("recvfrom", 1), ("sendto", 1), ("sendto", 2), ("ldl-poll-recv", 1), ("resolve", 1), ("raw-recv", 1),
+              ("close", 1), ("close", 2), ("close", 3)]
+ENT_KIND = {"accept-pending": "accept", "connect-name": "connect", "ldl-poll-recv": "poll-recv"}   # kind of the call
+ENT_NPOINTS = {}
+for _v, _p in ENT_POINTS:
+    ENT_NPOINTS[_v] = max(ENT_NPOINTS.get(_v, 0), _p)
+ENT_VARIANTS = sorted(ENT_NPOINTS)
+ENT_DELAYS = (0, 1, 3, 8)
+ENT_PROBES, ENT_STMTS, ENT_RACERS = 2, 4, 2
+# statements (LINE events in nfc/llcp) a call executes outside every critical section before it waits / returns on the
+# unchanged code; two more are enumerated (a change that adds a test in front of a lock adds statements)
+ENT_STMT_N = {"accept": 10, "accept-pending": 18, "close": 9, "connect": 13, "connect-name": 13, "ldl-poll-recv": 6,
+              "poll-acks": 6, "poll-recv": 6, "poll-send": 6, "raw-recv": 8, "recv": 11, "recvfrom": 8, "resolve": 7,
+              "send": 10, "sendto": 19}
+ENT_STMT_POINTS = [(v, n) for v in ENT_VARIANTS for n in range(1, ENT_STMT_N[v] + 3)]
+REQUIRED += ["entering_cases", "entering_race_calls_during_termination", "entering_stmt_parked"] + \
+            ["entering_parked/%s/%d" % vp for vp in ENT_POINTS] + \
+            sorted({"entering_calls/" + ENT_KIND.get(v, v) for v in ENT_VARIANTS}) + \
+            ["entering_terminations/" + c for c in ("local", "remote", "disrupt", "ioerror-deact-noop",
+                                                    "ioerror-deact-raises")]
+
+
+def make_ent_desc(f, seed, rng):
+    """f-th entering case: cause x delay enumerated; every acquisition point on both ends; probes and racers rotate"""
+    j = f + seed * 7919
+    cause, end, deact = CAUSES[j % len(CAUSES)]
+    k = ENT_DELAYS[(j // len(CAUSES)) % len(ENT_DELAYS)]
+    nv = len(ENT_VARIANTS)
+    ent = {}
+    for e, o in (("A", 0), ("B", nv // 2)):
+        lst = [[v, p, "park"] for v, p in ENT_POINTS]
+        for i in range(ENT_PROBES):               # one acquisition further than the unchanged code makes
+            v = ENT_VARIANTS[(j * ENT_PROBES + o + i) % nv]
+            lst.append([v, ENT_NPOINTS[v] + 1, "park"])
+        for i in range(ENT_STMTS):                # enumerated: 2 * ENT_STMTS consecutive points per case
+            v, n = ENT_STMT_POINTS[(j * 2 * ENT_STMTS + (ENT_STMTS if e == "B" else 0) + i) % len(ENT_STMT_POINTS)]
+            lst.append([v, n, "stmt"])
+        for i in range(ENT_RACERS):
+            v = ENT_VARIANTS[(j * ENT_RACERS + o + i * 5) % nv]
+            lst.append([v, rng.choice([0, 200, 1000, 3000, 8000, 15000]), rng.choice(["race", "race-early"])])
+        rng.shuffle(lst)
+        ent[e] = lst
+    d = {"cause": cause, "end": end, "deact": deact, "k": k, "roles": [], "ent": ent,
+         "yield_p": rng.choice([0.0, 0.01, 0.02]), "yield_seed": rng.randrange(1 << 30),
+         "race_p": rng.choice([0.1, 0.2, 0.35]),
+         "order_seed": rng.randrange(1 << 30), "lto": 100, "agf": rng.random() < 0.7,
+         "stagger": rng.choice([1, 1, 3]), "servers": rng.choice(["AB", "AB", "A", "B"])}
+    if cause in UNENC:
+        d["how"] = UNENC_HOW[cause][(j // len(CAUSES)) % 2]
+        if cause == "unencodable-name":
+            d["miu"] = dict(UNENC_MIU)
+    m = (f + f // 8) % 8
+    if m in (2, 6):
+        d["mac"] = "dep" if m == 2 else "udp"
+        d["lto"] = 250
+    return d
+
+
 # =========================================================================================================
 # case context, sockets, workers
 class Ctx:
@@ -379,9 +483,36 @@ class Ctx:
         self.xn = 0                          # exchanges seen by the MAC hook (initiator side)
         self.fr_deferred = []                # the ordinary roles of a frame-reject case (started after the events)
         self.fr_done = threading.Event()     # injectors finished, ordinary roles started
+        self.ent = desc.get("ent")           # entering case: {end: [[variant, p | delay, mode], ...]}
+        self.ent_workers = []                # entrants and racers
+        self.ent_threads = {}                # thread ident -> state of the entrant whose call is in progress
+        self.ent_release = {"A": threading.Event(), "B": threading.Event()}   # the link loop of that end has ended
+        self.ent_go = {"A": threading.Event(), "B": threading.Event()}        # terminate() of that end reached the MAC
+        self.ent_sweep = {"A": threading.Event(), "B": threading.Event()}     # ... began to shut the SAPs down
+        self.ent_trig = threading.Event()    # the cause has been injected
+        self.ent_ready_at = None             # exchange count at which all entrants had arrived
+        self.ent_done = threading.Event()
+        self.ent_hot = set()                 # thread idents that get yields injected once the cause is injected
+        self.ent_loops = {}                  # the link loops among them: ident -> end
+        self.ent_yields = 0
+        self.ent_rawaddr = {"A": itertools.count(8), "B": itertools.count(8)}
+        self._triggered = False
+
+    @property
+    def triggered(self):
+        return self._triggered
+
+    @triggered.setter
+    def triggered(self, v):
+        self._triggered = v
+        if v:
+            self.ent_trig.set()
 
     def due(self, n):
-        """the planned end of the link is due: at exchange k, or (frame-reject cases) k exchanges after the events"""
+        """the planned end of the link is due: at exchange k, or (frame-reject / entering cases) k exchanges after
+        the events took effect / the entrants arrived"""
+        if self.ent is not None:
+            return self.ent_ready_at is not None and self.xn >= self.ent_ready_at + self.desc["k"]
         if self.fr is None:
             return n >= self.desc["k"]
         return self.fr_ready_at is not None and self.xn >= self.fr_ready_at + self.desc["k"]
@@ -403,6 +534,7 @@ class Ctx:
                     snap[th] = getattr(th, "cur", None) or True
             del frames
             self.waiting[end] = snap
+            self.ent_go[end].set()
 
     def cause_at(self, end):
         d = self.desc
@@ -573,7 +705,7 @@ def build_infra(ctx, end):
     s.sock.bind(LDLSINK)
     s.mark_bound()
     inf["ldl"] = s
-    if ctx.fr is not None:
+    if ctx.fr is not None or ctx.ent is not None:
         inf["frsink"] = lsock(FRSINK, 16)
         inf["frnoacc"] = lsock(FRNOACC, 16)
     del llc
@@ -611,7 +743,7 @@ def build_infra(ctx, end):
                 break
     out = [Worker(ctx, end, "sink", sink_body, 1), Worker(ctx, end, "drain", drain_body, 1),
            Worker(ctx, end, "ldl-sink", ldl_body, 1)]
-    if ctx.fr is not None:
+    if ctx.fr is not None or ctx.ent is not None:
         out.append(Worker(ctx, end, "fr-sink", lambda w: sink_body(w, "frsink"), 1))
     return out
 
@@ -975,6 +1107,268 @@ def fr_injector(w):
                 ctx.fr_done.set()
 
 
+# ---- entering cases: stand-ins for locks / conditions, entrants, racers ------------------------------------------
+class EntGate(object):
+    """Harness-side stand-in for a lock or Condition attribute of a socket / of the link controller.  Every operation
+    goes to the real object.  In addition, for the thread of an entrant whose call is in progress, the outermost
+    acquisitions (the thread holds none of the gated locks) are counted and the p-th one is held back until the link
+    loop of the entrant's end has ended - the thread is 'preempted right before it takes the lock'.  Nothing here
+    decides a verdict; the guard time-out only means that the case was not exercised as planned (counted)."""
+
+    def __init__(self, real, ctx):
+        self._real, self._ctx = real, ctx
+
+    def _arrive(self):
+        st = self._ctx.ent_threads.get(threading.get_ident())
+        if st is None:
+            return None
+        if st["depth"] == 0 and st["armed"] and st["mode"] == "park":
+            st["n"] += 1
+            if st["n"] == st["p"]:
+                self._park(st)
+        st["depth"] += 1
+        return st
+
+    def _park(self, st):
+        f = sys._getframe(2)
+        while f is not None and not watch.is_nfc_file(f.f_code.co_filename):
+            f = f.f_back
+        where = "%s:%s" % (watch.short_file(f.f_code.co_filename), f.f_code.co_name) if f else "?"
+        del f
+        ent_park(self._ctx, st, where)
+
+    def acquire(self, *a, **kw):
+        st = self._arrive()
+        r = self._real.acquire(*a, **kw)
+        if st is not None and not r:
+            st["depth"] -= 1
+        return r
+
+    def release(self):
+        st = self._ctx.ent_threads.get(threading.get_ident())
+        if st is not None:
+            st["depth"] -= 1
+        return self._real.release()
+
+    def __enter__(self):
+        self._arrive()
+        return self._real.__enter__()
+
+    def __exit__(self, *a):
+        st = self._ctx.ent_threads.get(threading.get_ident())
+        if st is not None:
+            st["depth"] -= 1
+        return self._real.__exit__(*a)
+
+    def __getattr__(self, name):             # wait / notify / notify_all / _is_owned ...: the real object
+        return getattr(self._real, name)
+
+
+def ent_park(ctx, st, where):
+    """the calling entrant thread stays here until the link loop of its end has ended (guard: 60 s)"""
+    end = st["end"]
+    st["where"] = where
+    st["parked_before_term"] = ctx.term[end] is None and ctx.ended[end] is None
+    st["parked"] = next(ctx.ticks)
+    st["state"] = "parked"
+    ev = ctx.ent_release[end]
+    for _ in range(1200):
+        if ev.wait(0.05):
+            break
+    else:
+        st["timeout"] = True
+    st["released_after_end"] = ctx.ended[end] is not None
+    st["state"] = "released"
+
+
+def ent_gate_obj(ctx, obj, names):
+    for name in names:
+        real = getattr(obj, name, None)
+        if real is not None and not isinstance(real, EntGate):
+            setattr(obj, name, EntGate(real, ctx))
+
+
+def ent_gate_llc(ctx, llc):
+    """the link controller's lock (bind, accept, close take it first) and the condition resolve() waits on"""
+    ent_gate_obj(ctx, llc, ("lock",))
+    if llc.sap[1] is not None:
+        ent_gate_obj(ctx, llc.sap[1], ("resp",))
+
+
+def ent_setup(w, variant):
+    """the socket an entrant / racer works on and the call under test -> (kind, S, thunk) or None"""
+    ctx = w.ctx
+
+    def link_up():
+        return ctx.term[w.end] is None and ctx.ended[w.end] is None
+    kind = ENT_KIND.get(variant, variant)
+    if variant in ("recv", "send", "poll-recv", "poll-send", "poll-acks", "close"):
+        s = _connected(w, FRSINK)
+        if s is None:
+            return None
+        if variant == "send":                # RW(remote) is 1 and the peer never reads: the next send() blocks
+            ok, v = w.do("send", s, s.sock.send, PAY)
+            if not (ok and v is True):
+                return None
+        k = s.sock
+        call = {"recv": k.recv, "send": lambda: k.send(PAY), "poll-recv": lambda: k.poll("recv"),
+                "poll-send": lambda: k.poll("send"), "poll-acks": lambda: k.poll("acks"), "close": k.close}[variant]
+        return kind, s, call
+    if variant in ("accept", "accept-pending"):
+        s = w.new_sock(DLC)
+        name = b"urn:nfc:sn:vf-ent-%d" % w.ent["idx"]
+        if not (s and w.bind(s, name) and w.do("listen", s, s.sock.listen, 2)[0]):
+            return None
+        if variant == "accept-pending":      # a CONNECT is queued before accept() is called
+            ok, addr = w.do("getsockname", s, s.sock.getsockname)
+            if not ok or addr is None:
+                return None
+            Worker(ctx, w.peer, "ent-conn", lambda c: _connected(c, addr), 1).start()
+            t_end = _real_time.time() + 5.0
+            while len(s.sock._tco.recv_queue) == 0:
+                if not link_up() or _real_time.time() > t_end:
+                    return None
+                _real_time.sleep(0.002)
+        return kind, s, s.sock.accept
+    if variant in ("connect", "connect-name"):
+        s = w.new_sock(DLC)                  # unbound: connect() binds it first (link controller lock)
+        dest = FRNOACC if variant == "connect" else NA_NAME
+        return (kind, s, lambda: s.sock.connect(dest)) if s else None
+    if variant == "recvfrom":
+        s = w.new_sock(LDL)
+        if not (s and w.bind(s, b"urn:nfc:sn:vf-ent-%d" % w.ent["idx"])):
+            return None
+        return kind, s, s.sock.recvfrom
+    if variant == "sendto":
+        s = w.new_sock(LDL)                  # unbound: sendto() binds it first
+        return (kind, s, lambda: s.sock.sendto(PAY, LDLSINK)) if s else None
+    if variant == "ldl-poll-recv":
+        s = w.new_sock(LDL)
+        if not (s and w.bind(s)):
+            return None
+        return kind, s, lambda: s.sock.poll("recv")
+    if variant == "resolve":
+        s = w.new_sock(LDL)
+        name = HOLE + b"-ent%d-" % w.ent["idx"] + w.end.encode()
+        return (kind, s, lambda: s.sock.resolve(name)) if s else None
+    if variant == "raw-recv":
+        s = w.new_sock(RAW)
+        if not (s and w.bind(s, next(ctx.ent_rawaddr[w.end]))):
+            return None
+        return kind, s, s.sock.recv
+    raise ValueError(variant)
+
+
+def ent_body(w):
+    """entrant: the call is held at its p-th outermost lock acquisition (mode park) or at the p-th statement in
+    nfc/llcp that it executes while it holds none of the gated locks (mode stmt) until the link loop has ended;
+    racer: the call starts when terminate() reaches the MAC (mode race-early) / begins to shut the service access
+    points down (mode race), plus p microseconds"""
+    ctx, st = w.ctx, w.ent
+    try:
+        got = ent_setup(w, st["variant"])
+        if got is None:
+            return
+        kind, s, call = got
+        st["kind"] = kind
+        ent_gate_obj(ctx, s.sock._tco, ("lock", "send_ready", "recv_ready", "acks_ready", "send_token"))
+        if st["mode"] in ("race", "race-early"):
+            ctx.ent_hot.add(threading.get_ident())
+            st["state"] = "ready"
+            ev = ctx.ent_go[w.end] if st["mode"] == "race-early" else ctx.ent_sweep[w.end]
+            for _ in range(1200):
+                if ev.wait(0.05) or ctx.ended[w.end] is not None:
+                    break
+            t_go = _real_time.perf_counter() + st["p"] * 1e-6
+            while _real_time.perf_counter() < t_go:
+                pass
+        st["rec_index"] = len(w.log)
+        ctx.ent_threads[threading.get_ident()] = st
+        st["armed"] = st["mode"] in ("park", "stmt")
+        if st["armed"]:
+            st["state"] = "armed"
+        try:
+            w.do(kind, s, call)
+        finally:
+            st["armed"] = False
+            ctx.ent_threads.pop(threading.get_ident(), None)
+        st["state"] = "done"
+        w.do(kind, s, call)                  # once more on the same socket
+    finally:
+        if st["state"] in ("init", "ready"):
+            st["state"] = "skip"
+
+
+def ent_monitor(ctx):
+    """harness thread: the end of the link becomes due once every entrant is parked, has come back, or waits inside
+    its call (it has passed its last acquisition); bounded, selects what is exercised, decides no verdict"""
+    def link_up():
+        return all(ctx.term[e] is None and ctx.ended[e] is None for e in "AB")
+    try:
+        t_end = _real_time.time() + 8.0
+        while link_up() and _real_time.time() < t_end:
+            frames = None
+            pending = 0
+            for w in ctx.ent_workers:
+                state = w.ent["state"]
+                if state in ("parked", "released", "done", "skip", "ready") or not w.is_alive():
+                    continue
+                if state == "armed":
+                    if frames is None:
+                        frames = sys._current_frames()
+                    info = watch.classify(frames[w.ident]) if w.ident in frames else None
+                    if info is not None and info.kind == "cond-wait" and info.in_nfc:
+                        continue
+                pending += 1
+            del frames
+            if not pending:
+                break
+            _real_time.sleep(0.004)
+    finally:
+        ctx.ent_ready_at = ctx.xn
+        ctx.ent_done.set()
+
+
+def make_ent_hook(ctx):
+    """statistical part: yields at statement starts of nfc/llcp/tco.py and llc.py, in the racers and the link loops
+    only, from the moment the cause is injected until both link loops have ended (the first statement of a SAP
+    shutdown in a link loop starts the racers of that end).  A racer is put to sleep for
+    0.3 .. 4 ms (long enough for a link loop to run the complete terminate() meanwhile) with probability race_p per
+    statement, a link loop yields the processor with a tenth of that probability."""
+    p = float(ctx.desc.get("race_p", 0.2))
+    rng = random.Random(ctx.desc["yield_seed"] ^ 0x5EED)
+    hot, trig, ended, loops = ctx.ent_hot, ctx.ent_trig, ctx.ended, ctx.ent_loops
+    naps = (0.0005, 0.002, 0.005, 0.01, 0.02)
+    match = {}
+
+    threads = ctx.ent_threads
+
+    def hook(code, line, t):
+        st = threads.get(t)
+        if st is not None and st["depth"] == 0 and st["armed"] and st["mode"] == "stmt":
+            st["n"] += 1                 # statement of nfc/llcp executed outside every critical section
+            if st["n"] == st["p"]:
+                ent_park(ctx, st, "%s:%s" % (watch.short_file(code.co_filename), code.co_name))
+            return
+        if t not in hot or not trig.is_set() or (ended["A"] is not None and ended["B"] is not None):
+            return
+        m = match.get(code)
+        if m is None:
+            m = match[code] = code.co_filename.endswith(("/nfc/llcp/tco.py", "/nfc/llcp/llc.py"))
+        if m:
+            r = rng.random()
+            e = loops.get(t)
+            if e is not None:
+                if code.co_name == "shutdown":
+                    ctx.ent_sweep[e].set()
+                if r < p * 0.1:
+                    _real_time.sleep(0)
+            elif r < p:
+                ctx.ent_yields += 1
+                _real_time.sleep(naps[int(r / p * len(naps)) % len(naps)])
+    return hook
+
+
 ROLES = {
     "recv": r_recv, "accept": r_accept, "connect-sap": r_connect_sap, "connect-name": r_connect_name,
     "resolve-hole": r_resolve_hole, "resolve-loop": r_resolve_loop, "send-window": r_send_window,
@@ -1177,6 +1571,7 @@ class Pair(ThreadedPair):
         ctx.gone[name] = True
         ctx.stamp_term(name)                 # no-op when terminate() reached the MAC; else: who waits *now*
         ctx.ended[name] = next(ctx.ticks)
+        ctx.ent_release[name].set()
 
 
 class DeadFrontend:
@@ -1568,7 +1963,11 @@ def flag_blocked(ctx, res, th, info, phase):
         cause = "frame-reject-event+" + cause       # the link loop stopped after such events were sent to this end
     if not info.blocked_forever_in_nfc():
         return False
-    if age == "old":
+    ent = getattr(th, "ent", None)
+    if ent is not None and ent.get("parked") and ent.get("parked_before_term") and cur[2] < ent["parked"] and \
+            cur[0] == ent["kind"] and ent.get("rec_index") == len(th.log):
+        age = "entering"                  # the call was held at a lock acquisition while the link terminated
+    elif age == "old":
         was = ctx.waiting[end].get(th)
         if not (was is True or (was is not None and was is getattr(th, "cur", None))):
             age = "old-latewait"          # it passed the entry checks before, reached the wait after the shutdown
@@ -1599,6 +1998,8 @@ def run_case(desc, env):
     ctx.env_mon = env.mon
     if ctx.hold:
         env.mon.hook = make_hold_hook(ctx)
+    elif ctx.ent is not None:
+        env.mon.hook = make_ent_hook(ctx)
     opts = {"lto": desc["lto"], "agf": bool(desc["agf"])}
     infra = []
 
@@ -1607,6 +2008,9 @@ def run_case(desc, env):
         ctx.pair = pair
         ctx.local_term = lambda e: setattr(pair, "term_a" if e == "A" else "term_b", True)
         extend_macs(pair, ctx)
+        if ctx.ent is not None:
+            for e in "AB":
+                ent_gate_llc(ctx, ctx.llc(e))
         for e in "AB":
             infra.extend(build_infra(ctx, e))
         for e in desc["servers"]:
@@ -1623,6 +2027,8 @@ def run_case(desc, env):
         srv.start()
     pair.ta.start()
     pair.tb.start()
+    ctx.ent_loops.update({pair.ta.ident: "A", pair.tb.ident: "B"})
+    ctx.ent_hot.update(ctx.ent_loops)
     # roles need the link parameters of an activated LLC (llc.connect reads cfg['send-miu'])
     for _ in range(4000):
         if all("send-miu" in x.cfg for x in (pair.a, pair.b)) or not (pair.ta.is_alive() and pair.tb.is_alive()):
@@ -1650,6 +2056,18 @@ def start_roles(ctx, desc):
             w.start()
         for e in "AB":
             Worker(ctx, e, "fr-inject", fr_injector, 1).start()
+    if ctx.ent is not None:
+        for e in "AB":
+            for idx, (variant, p, mode) in enumerate(ctx.ent[e]):
+                w = Worker(ctx, e, "ent-%s-%s-%s" % (variant, p, mode), ent_body, 1)
+                w.ent = {"variant": variant, "p": int(p), "mode": mode, "idx": idx, "end": e, "state": "init",
+                         "kind": ENT_KIND.get(variant, variant), "n": 0, "depth": 0, "armed": False}
+                ctx.ent_workers.append(w)
+        for i, w in enumerate(ctx.ent_workers):
+            w.start()
+            if stag and i % stag == 0:
+                _real_time.sleep(0.0005)
+        threading.Thread(target=ent_monitor, args=(ctx,), name="vf-ent-monitor", daemon=True).start()
     for i, (name, e) in enumerate(desc["roles"]):
         w = Worker(ctx, e, name, ROLES[name], 1)
         if ctx.fr is not None:
@@ -1669,6 +2087,8 @@ def finish_case(ctx, env, res):
     status, infos = env.q.wait(lambda: runs)
     res.count("quiescence_waits")
     ctx.release.set()
+    for e in "AB":
+        ctx.ent_release[e].set()
     if ctx.hold_state.get("lock_conflict"):
         res.count("holds_released_early_lock_conflict")
     if status != "done":
@@ -1743,6 +2163,9 @@ def finish_case(ctx, env, res):
     if ctx.fr is not None and not ctx.fr_done.wait(20.0):
         res.inconc.append("frame-reject case: the injector threads did not finish (harness)")
         return res, ctx
+    if ctx.ent is not None and not ctx.ent_done.wait(20.0):
+        res.inconc.append("entering case: the monitor thread did not finish (harness)")
+        return res, ctx
     if not settle(ctx, env, res, phase1_threads, "at-termination"):
         return res, ctx
     res.times.append(("phase1-settled", _real_time.time()))
@@ -1798,6 +2221,8 @@ def run_case_udp(desc, env):
     res.times = [("start", _real_time.time())]
     env.mon.reset(desc["yield_p"], random.Random(desc["yield_seed"]))
     ctx.env_mon = env.mon
+    if ctx.ent is not None:
+        env.mon.hook = make_ent_hook(ctx)
     cause, end = desc["cause"], desc["end"]
     net = fakenet.FakeNet(clock="virtual", keep_frames=False, stall_limit=10.0)
     st = {"n": 0, "broken": False, "term": {"A": False, "B": False}, "connected": {"A": False, "B": False}}
@@ -1839,6 +2264,8 @@ def run_case_udp(desc, env):
     def options(e):
         def on_startup(llc):
             ctx.llcs[e] = llc
+            if ctx.ent is not None:
+                ent_gate_llc(ctx, llc)
             infra.extend(build_infra(ctx, e))
             if e in desc["servers"]:
                 for cls in (nfc.snep.SnepServer, nfc.handover.HandoverServer):
@@ -1894,12 +2321,15 @@ def run_case_udp(desc, env):
             ctx.gone[e] = True
             ctx.stamp_term(e)
             ctx.ended[e] = next(ctx.ticks)
+            ctx.ent_release[e].set()
         return body
 
     net.install()
     try:
         ths = net.spawn_all([stack("B"), stack("A")], ["runB", "runA"])
         stacks["B"], stacks["A"] = ths
+        ctx.ent_loops.update({ths[0].ident: "B", ths[1].ident: "A"})
+        ctx.ent_hot.update(ctx.ent_loops)
         ctx.pair = types.SimpleNamespace(ta=stacks["A"], tb=stacks["B"], a=None, b=None, pipe=None)
         if not up.wait(15.0):
             net.abort("no link")
@@ -2012,6 +2442,63 @@ def account(ctx, res):
         for e in "AB":
             if effective[e] and ctx.term[e] is not None:
                 res.count("fr_terminations/" + ctx.cause_at(e))
+    good = {"A": 0, "B": 0}
+    for w in ctx.ent_workers:
+        st = w.ent
+        variant, p, kind = st["variant"], st["p"], st["kind"]
+        idx = st.get("rec_index")
+        rec = None if idx is None else (w.log[idx] if idx < len(w.log) else w.cur)
+        term, ended = ctx.term[w.end], ctx.ended[w.end]
+        if st["mode"] in ("race", "race-early"):
+            if rec is None or term is None or ended is None:
+                res.count("entering_race_not_started/" + st["state"])
+                continue
+            res.count("entering_race_calls")
+            res.count("entering_race_calls/" + kind)
+            when = "before" if rec[2] < term else ("during" if rec[2] < ended else "after")
+            res.count("entering_race_calls_%s_termination" % when)
+            if when != "after" and (rec[3] is None or rec[3] > term):
+                res.count("entering_race_calls_overlapping_termination")
+                res.see("entering_race_outcomes", "%s:%s" % (kind, (rec[4] or "blocked").split("@")[0]))
+            continue
+        if st["mode"] == "stmt":
+            if st.get("timeout"):
+                res.inconc.append("entering case: a parked thread was not released within the guard (harness)")
+            if rec is None or not st.get("parked"):
+                res.count("entering_stmt_not_parked")
+            elif not (st.get("parked_before_term") and st.get("released_after_end") and ctx.triggered):
+                res.count("entering_stmt_parked_but_not_across_termination")
+            else:
+                good[w.end] += 1
+                res.count("entering_stmt_parked")
+                res.count("entering_stmt_calls/" + kind)
+                res.see("entering_stmt_points", "%s@%s" % (variant, st.get("where")))
+                res.see("entering_stmt_outcomes", "%s:%s" % (kind, (rec[4] or "blocked").split("@")[0]))
+            continue
+        beyond = p > ENT_NPOINTS[variant]
+        if st.get("timeout"):
+            res.inconc.append("entering case: a parked thread was not released within the guard (harness)")
+        if rec is None or not st.get("parked"):
+            res.count(("entering_probe_not_parked/%s/%d" if beyond else "entering_not_parked/%s/%d") % (variant, p))
+            if not beyond:
+                res.see("entering_not_parked_state", "%s/%d:%s" % (variant, p, st["state"]))
+            continue
+        if not (st.get("parked_before_term") and st.get("released_after_end") and ctx.triggered):
+            res.count("entering_parked_but_not_across_termination/%s/%d" % (variant, p))
+            continue
+        good[w.end] += 1
+        res.count(("entering_parked_beyond/%s/%d" if beyond else "entering_parked/%s/%d") % (variant, p))
+        res.count("entering_calls/" + kind)
+        res.see("entering_points", "%s/%d@%s" % (variant, p, st.get("where")))
+        res.see("entering_outcomes", "%s/%d:%s" % (variant, p, (rec[4] or "blocked").split("@")[0]))
+    if ctx.ent is not None:
+        res.count("entering_race_yields", ctx.ent_yields)
+        if sum(good.values()):
+            res.count("entering_cases")
+            res.see("entering_delay_k", ctx.desc["k"])
+            for e in "AB":
+                if good[e]:
+                    res.count("entering_terminations/" + ctx.cause_at(e))
     for th, es in _uncaught[ctx.uncaught_mark:]:
         res.see("uncaught_in_thread", "%s %s" % ("service" if not isinstance(th, Worker) else "worker", es))
         res.count("uncaught_exceptions_in_threads")
@@ -2059,6 +2546,9 @@ def evaluate(desc, env, R):
     res, ctx = run_case(desc, env)
     ctx.release.set()
     ctx.fire.set()
+    for e in "AB":
+        ctx.ent_release[e].set()
+    ctx.ent_trig.set()
     env.mon.hook = None
     if ctx.pair is not None:
         try:
@@ -2104,6 +2594,10 @@ def run(desc, R, rng):
             f = desc["first"] + j * desc["stride"]
             evaluate(make_fr_desc(f, int(desc.get("seed", 0)), rng), env, R)
             R.max("live_threads_in_shard", threading.active_count() - base)
+        for j in range(desc.get("nent", 0)):     # after the others: their rng draws stay what they were
+            f = desc["first"] + j * desc["stride"]
+            evaluate(make_ent_desc(f, int(desc.get("seed", 0)), rng), env, R)
+            R.max("live_threads_in_shard", threading.active_count() - base)
         R.sample({"last_case": {k: d[k] for k in ("cause", "end", "deact", "k", "yield_p", "agf")},
                   "roles": len(d["roles"])})
     finally:
@@ -2136,6 +2630,8 @@ if __name__ == "__main__":                   # debugging: python -m vf.props.c09
         mk = make_desc
         if arg.startswith("fr"):
             mk, arg = make_fr_desc, arg[2:]
+        elif arg.startswith("ent"):
+            mk, arg = make_ent_desc, arg[3:]
         lo, _, hi = arg.partition(":")
         rng = random.Random(1)
         descs = [mk(i, 0, rng) for i in range(int(lo), int(hi or int(lo) + 1))]
